@@ -1,4 +1,4 @@
-import SpecVerif.Model.C13
+import SpecVerif.Model.C13Pair
 /-!
 Line-protocol driver for the C13 correspondence: evaluates the very
 definitions of `SpecVerif.C13` that the theorems of `Props/C13.lean` are about.
@@ -8,9 +8,17 @@ Input  (one command per line, tokens separated by single spaces):
       eqmode = what Python `==` between two items is in this universe:
         0 identity of the token; 1 payload and kind only (the key is ignored: equal items with
         different keys); 2 key, payload, kind with kinds 0 and 3 identified ((1, p) == (1.0, p))
-  <op> <args>*                                  see `parseOp`
+  <op> <args>*                                  see `parseOp` (an operation on the main container)
+  onew <okkinds> <keymode 0|1|2> <item>*        second container (`other`) with its OWN configuration:
+      okkinds = `*` (unparameterised) or the digits of the admissible bad-kinds (`0`, `023`, …);
+      keymode = its key function on tokens: 0 key field, 1 payload, 2 (key + 1) mod 3
+      from here on every output line also shows the second container
+  o <op> <args>*                                the same operations on the second container
+  extendFrom|iaddFrom|extendSelf|addFrom|raddFrom|eqFrom|ctorFrom <m|o>      cross operations, receiver m(ain) / o(ther)
+  extendFromSlice <m|o> <a> <b>                 receiver.extend(operand[a:b])
 Item token `k:p:b` (key, payload, bad-kind); option-int `_` = None.
-Output (one line per input line): `<out> ;; <list> ;; <dict>`
+Output (one line per input line): `<out> ;; <list> ;; <dict>` (+ ` ;; <list> ;; <dict>` of the second container once it exists);
+a new container (`+`, constructor) is shown as `kl <list> <dict>`
 -/
 open SpecVerif.Py SpecVerif.C13
 
@@ -96,10 +104,44 @@ def showOut : Out Item Int → String
 
 def showState (l : KL Item Int) : String := showItems l.list ++ " ;; " ++ showDict l.dict
 
+def keyOf (mode : String) (x : Item) : Int :=
+  if mode == "1" then Int.ofNat x.p else if mode == "2" then (x.k + 1) % 3 else x.k
+
+/-- configuration of the second container: own key function, own admissible kinds -/
+def mkCfgO (okkinds mode : String) (selfKeyed : Bool) : Cfg Item Int :=
+  { key := keyOf mode
+    okItem := fun x => okkinds == "*" || okkinds.toList.contains (Char.ofNat (48 + x.b))
+    asKey := fun x => if selfKeyed then some x.k else none }
+
+def parseSide (s : String) : Option Side :=
+  if s == "m" then some .main else if s == "o" then some .other else none
+
+def parseOpP (ts : List String) : Option (OpP Item Int) :=
+  match ts with
+  | ["extendFrom", s] => do pure (.extendFrom (← parseSide s))
+  | ["iaddFrom", s] => do pure (.iaddFrom (← parseSide s))
+  | ["extendSelf", s] => do pure (.extendSelf (← parseSide s))
+  | ["extendFromSlice", s, a, b] => do pure (.extendFromSlice (← parseSide s) (← parseOptInt a) (← parseOptInt b))
+  | ["addFrom", s] => do pure (.addFrom (← parseSide s))
+  | ["raddFrom", s] => do pure (.raddFrom (← parseSide s))
+  | ["eqFrom", s] => do pure (.eqFrom (← parseSide s))
+  | ["ctorFrom", s] => do pure (.ctorFrom (← parseSide s))
+  | "o" :: rest => do pure (.on .other (← parseOp rest))
+  | _ => do pure (.on .main (← parseOp ts))
+
+def showOutP : OutP Item Int → String
+  | .out o => showOut o
+  | .kl r => "kl " ++ showItems r.list ++ " " ++ showDict r.dict
+
 structure St where
-  cfg : Cfg Item Int
+  cfg : Cfg2 Item Int
+  selfKeyed : Bool
   eqv : Item → Item → Bool
-  kl : KL Item Int
+  pair : Pair Item Int
+  hasOther : Bool
+
+def showSt (st : St) : String :=
+  showState st.pair.main ++ (if st.hasOther then " ;; " ++ showState st.pair.other else "")
 
 def handle (st : St) (line : String) : St × String :=
   match (line.trimAscii.toString.splitOn " ").filter (· ≠ "") with
@@ -108,15 +150,32 @@ def handle (st : St) (line : String) : St × String :=
     | none => (st, "bad-op")
     | some xs =>
       let cfg := mkCfg (typed == "1") (selfk == "1")
-      match ofList cfg xs KL.empty with
-      | .ok l => ({ cfg := cfg, eqv := mkEqv eqm, kl := l }, "ok ;; " ++ showState l)
-      | .error e => ({ cfg := cfg, eqv := mkEqv eqm, kl := KL.empty }, "err " ++ e.name ++ " ;; " ++ showState (KL.empty : KL Item Int))
+      let st' : St := { cfg := ⟨cfg, cfg⟩, selfKeyed := selfk == "1", eqv := mkEqv eqm, pair := ⟨KL.empty, KL.empty⟩, hasOther := false }
+      match construct cfg xs with
+      | .ok l => let st'' := { st' with pair := ⟨l, KL.empty⟩ }; (st'', "ok ;; " ++ showSt st'')
+      | .error e => (st', "err " ++ e.name ++ " ;; " ++ showSt st')
+  | "onew" :: okkinds :: mode :: items =>
+    match parseItems items with
+    | none => (st, "bad-op")
+    | some xs =>
+      let cfgO := mkCfgO okkinds mode st.selfKeyed
+      let st' : St := { st with cfg := ⟨st.cfg.main, cfgO⟩, pair := ⟨st.pair.main, KL.empty⟩, hasOther := true }
+      match construct cfgO xs with
+      | .ok l => let st'' := { st' with pair := ⟨st.pair.main, l⟩ }; (st'', "ok ;; " ++ showSt st'')
+      | .error e => (st', "err " ++ e.name ++ " ;; " ++ showSt st')
   | ts =>
-    match parseOp ts with
+    match parseOpP ts with
     | none => (st, "bad-op")
     | some op =>
-      let (l', o) := stepE st.cfg st.eqv st.kl op
-      ({ st with kl := l' }, showOut o ++ " ;; " ++ showState l')
+      let (p', o) := stepP st.cfg st.eqv st.pair op
+      -- `+` and slices: show the whole new container (items AND key index), not only its items
+      let o := match op with
+        | .on s op' => (match newContainer (st.cfg.get s) (st.pair.get s) op' with
+          | some (.ok r) => .kl r
+          | _ => o)
+        | _ => o
+      let st' := { st with pair := p' }
+      (st', showOutP o ++ " ;; " ++ showSt st')
 
 partial def loop (h : IO.FS.Stream) (out : IO.FS.Stream) (st : St) : IO Unit := do
   let line ← h.getLine
@@ -126,4 +185,6 @@ partial def loop (h : IO.FS.Stream) (out : IO.FS.Stream) (st : St) : IO Unit := 
   loop h out st'
 
 def main : IO Unit := do
-  loop (← IO.getStdin) (← IO.getStdout) { cfg := mkCfg false true, eqv := mkEqv "0", kl := KL.empty }
+  let cfg := mkCfg false true
+  loop (← IO.getStdin) (← IO.getStdout)
+    { cfg := ⟨cfg, cfg⟩, selfKeyed := true, eqv := mkEqv "0", pair := ⟨KL.empty, KL.empty⟩, hasOther := false }
